@@ -2,6 +2,7 @@ package main
 
 import (
 	"bytes"
+	"os"
 	"fmt"
 	"io"
 	"runtime"
@@ -25,7 +26,12 @@ type fatalError struct{ msg string }
 
 func (f fatalError) Error() string { return "FATAL: " + f.msg }
 
+var debugLog = os.Getenv("HX_DEBUG") != ""
+
 func (h *quietHub) Log(name string, level int, file string, line int, msg string) {
+	if debugLog {
+		fmt.Fprintf(os.Stderr, "LOG %d %s:%d %s\n", level, file, line, msg)
+	}
 	if level >= loghub.ERROR {
 		h.mu.Lock()
 		h.last = fmt.Sprintf("%s:%d %s", file, line, msg)
@@ -78,4 +84,7 @@ var theHub = &quietHub{}
 func init() {
 	loghub.ErrorLogger.Hub = theHub
 	loghub.ErrorLogger.SetLevel(loghub.ERROR)
+	if debugLog {
+		loghub.ErrorLogger.SetLevel(loghub.DEBUG)
+	}
 }
